@@ -307,6 +307,23 @@ type outcome struct {
 const deadline = 20 * time.Second
 
 // consume runs the parser and the consumer; ok=false means the channels were not both closed in time.
+// keep takes what is judged out of a delivered entry (accessions, names, sequence text and length, copied) and then
+// uses the entry as its owner may: an alias appended to its names, an accession appended, the first of each
+// overwritten. An entry belongs to the consumer who received it; the entries still to come are not his to change.
+func keep(e uniprot.Entry) uniprot.Entry {
+	k := uniprot.Entry{Accession: append([]string{}, e.Accession...), Name: append([]string{}, e.Name...)}
+	k.Sequence.Value, k.Sequence.Length = e.Sequence.Value, e.Sequence.Length
+	e.Name = append(e.Name, "alias-added-by-the-consumer")
+	e.Accession = append(e.Accession, "X00000")
+	if len(e.Name) > 0 {
+		e.Name[0] = "renamed-by-the-consumer"
+	}
+	if len(e.Accession) > 0 {
+		e.Accession[0] = "Y00000"
+	}
+	return k
+}
+
 func consume(c Case, data []byte) (o outcome, problem error) {
 	old := runtime.GOMAXPROCS(0)
 	if c.Consumer.Procs > 0 {
@@ -359,7 +376,7 @@ func consume(c Case, data []byte) (o outcome, problem error) {
 				if !ok {
 					goto entriesDone
 				}
-				o.entries = append(o.entries, e)
+				o.entries = append(o.entries, keep(e))
 			case r := <-parserPanic:
 				return o, vk.Errf("uniprot.Parse panicked: %v", r)
 			case <-timeout:
@@ -391,7 +408,7 @@ func consume(c Case, data []byte) (o outcome, problem error) {
 				ec = nil
 				continue
 			}
-			o.entries = append(o.entries, e)
+			o.entries = append(o.entries, keep(e))
 		case e, ok := <-rc:
 			if !ok {
 				rc = nil
